@@ -724,4 +724,24 @@ void body()
 }
 }
 
+#ifdef VF_FUZZ
+// one history per libFuzzer input; the first byte selects the family
+void vf_fuzz_one()
+{
+  using s_void = fcppt::signal::object<void(int)>;
+  using s_int = fcppt::signal::object<int(int)>;
+  using s_void_u = fcppt::signal::object<void(int), fcppt::signal::unregister::base>;
+  using s_int_u = fcppt::signal::object<int(int), fcppt::signal::unregister::base>;
+  switch (vf::fuzz_src().take(1) % 6)
+  {
+  case 0:
+  case 1: drive<list_runner>("intrusive-list", 0); break;
+  case 2: drive<signal_runner<s_void, false, false>>("signal<void(int)>", 0); break;
+  case 3: drive<signal_runner<s_int, true, false>>("signal<int(int)>", 0); break;
+  case 4: drive<signal_runner<s_void_u, false, true>>("signal<void(int),unregister>", 0); break;
+  default: drive<signal_runner<s_int_u, true, true>>("signal<int(int),unregister>", 0); break;
+  }
+}
+#endif
+
 VF_MAIN(body)
